@@ -11,6 +11,10 @@ Regenerates lean/FairModel/Generated/AdvScheduleSrc.lean with a `SchedCfg.Cfg` r
   incIter     `self.n_iter_ += 1`
   hitMax      the test in front of the first early exit, and HOW it exits (`return self` / `break`)
   stopInit, stopAcc, cbStep, exitStop   the callback block
+  cbGuard     the guard around the callback block (`if self.callbacks_:`; any other guard is refused)
+  cbResultCheck   the check of a callback's result before it is accumulated (condition and exception kind)
+  partialFitCallbackCalls   partial_fit calls no callbacks
+  paramRejected   the range checks of `__setup` on batch_size / epochs / max_iter as one condition on an Int (ValueError)
   body        the ORDER of train_step / increment / max_iter test / callback block in the batch loop
 plus the loop nesting (`for .. in range(epochs)` around `for .. in range(batches)`), the shuffle placement and
 guard, the `train_step` call shapes of `fit` and `partial_fit`, and the decision rules of predict.
@@ -60,6 +64,11 @@ PINNED_DEFS = {
                "if self.max_iter != -1 and self.n_iter_ >= self.max_iter: ..."),
     "stopAcc": (".orAcc", "stop = stop or result"),
     "cbStep": ("n_iter", "cb(self, step=self.n_iter_, ...)"),
+    "cbResultCheck": ("(.truthyNonBool .runtimeError)",
+                      "if result and (not isinstance(result, bool)):     raise RuntimeError(_CALLBACK_RETURNS_ERROR)"),
+    "paramRejected": ("(decide ((-1 : Int) > v) || (decide ((0 : Int) ≥ v) && (v != (-1 : Int))))",
+                      "__setup, for batch_size / epochs / max_iter: check_scalar(kw, kwname, (int, float), min_val=-1, "
+                      "include_boundaries='left') ; if kw <= 0.0 and kw != -1: raise ValueError"),
     "binaryRule": (".threshold .ge", "(pred >= self.threshold_value).astype(float)"),
     "multiclassRule": (".argmaxRow", "argmax(pred, axis=1); b[a, c] = 1"),
     "fitReinit": ("((!has_classes) || (!warm_start))", "fit: reinitialize = not hasattr(self, 'classes_') or not self.warm_start"),
@@ -460,12 +469,18 @@ def lift_fit(fn):
             info["inc"] = (ex_it.int(st.value), _src(st))
             events.append("incIter")
             continue
-        if isinstance(st, ast.If) and _src(st.test) == "self.callbacks_":
+        if isinstance(st, ast.If) and any(isinstance(x, ast.For) and _src(x.iter) == "self.callbacks_" for x in st.body):
+            # the callback block: the only guard understood is the truth value of `self.callbacks_` itself
+            if _src(st.test) != "self.callbacks_":
+                _bad(f"fit: the callback block is guarded by `{_src(st.test)}`, not by `self.callbacks_`")
             if "cb" in info or st.orelse:
                 _bad("fit: second callback block / else branch")
             info["cb"] = lift_callbacks(st, ex_it)
+            info["cb"]["guard"] = ("truthy", "if " + _src(st.test) + ":")
             events.append("callbacks")
             continue
+        if isinstance(st, ast.For) and _src(st.iter) == "self.callbacks_":
+            _bad("fit: the callback loop stands unguarded in the batch loop")
         if isinstance(st, ast.If) and "self.max_iter" in {_src(n) for n in ast.walk(st.test)}:
             if "max" in info or st.orelse:
                 _bad("fit: second max_iter test / else branch")
@@ -498,7 +513,7 @@ def lift_callbacks(block, ex_it):
             and isinstance(loop.target, ast.Name)):
         _bad(f"fit/callbacks: loop is not `for <cb> in self.callbacks_`: {_src(loop)[:60]}")
     cbv = loop.target.id
-    res, step, acc = None, None, None
+    res, step, acc, check = None, None, None, None
     for st in loop.body:
         if isinstance(st, ast.Assign) and len(st.targets) == 1 and isinstance(st.targets[0], ast.Name) \
                 and isinstance(st.value, ast.Call) and _src(st.value.func) == cbv:
@@ -512,9 +527,27 @@ def lift_callbacks(block, ex_it):
                 _bad("fit/callbacks: callback is not given `step=`")
             res, step = st.targets[0].id, (ex_it.int(kws["step"]), _src(kws["step"]))
             continue
-        if isinstance(st, ast.If) and not st.orelse and len(st.body) == 1 and isinstance(st.body[0], ast.Raise) \
-                and "isinstance" in _src(st.test):
-            continue     # type check of the callback's result
+        if isinstance(st, ast.If) and res is not None and res in _names_in(st.test):
+            # type check of the callback's result: which values are rejected, with which exception
+            if check is not None or acc is not None:
+                _bad("fit/callbacks: second check of the callback's result / check after the accumulation")
+            if st.orelse or len(st.body) != 1 or not isinstance(st.body[0], ast.Raise) or st.body[0].exc is None:
+                _bad(f"fit/callbacks: the check of the callback's result does not just raise: {_src(st)[:100]}")
+            exc = st.body[0].exc
+            ename = _src(exc.func) if isinstance(exc, ast.Call) else _src(exc)
+            kinds = {"RuntimeError": "runtimeError", "ValueError": "valueError", "TypeError": "typeError"}
+            if ename not in kinds:
+                _bad(f"fit/callbacks: a bad callback result raises `{ename}`")
+            nonbool = (f"not isinstance({res}, bool)",)
+            t = st.test
+            if _src(t) in nonbool:
+                check = (f"(.nonBool .{kinds[ename]})", _src(st).replace("\n", " "))
+            elif isinstance(t, ast.BoolOp) and isinstance(t.op, ast.And) and len(t.values) == 2 \
+                    and sorted(_src(v) for v in t.values) == sorted([res, nonbool[0]]):
+                check = (f"(.truthyNonBool .{kinds[ename]})", _src(st).replace("\n", " "))
+            else:
+                _bad(f"fit/callbacks: condition on the callback's result of unknown shape: `{_src(t)}`")
+            continue
         if isinstance(st, ast.Assign) and len(st.targets) == 1 and _src(st.targets[0]) == flag:
             if acc is not None or res is None:
                 _bad("fit/callbacks: flag is updated twice / before the call")
@@ -536,8 +569,79 @@ def lift_callbacks(block, ex_it):
         _bad("fit/callbacks: no callback call / no accumulation found")
     if not (isinstance(fin, ast.If) and not fin.orelse and _src(fin.test) == flag):
         _bad(f"fit/callbacks: final test of unknown shape: {_src(fin)[:60]}")
-    return dict(stopInit="true" if init.value.value else "false", acc=acc, step=step,
+    if check is None:
+        check = (".coerce", "no check of the callback's result")
+    return dict(stopInit="true" if init.value.value else "false", acc=acc, step=step, check=check,
                 exit=_exit_kind(fin.body, "fit/callbacks"))
+
+
+# ------------------------------------------------------------------------------------------- __setup: positivity
+class _FloatToInt(ast.NodeTransformer):
+    """`0.0` -> `0`: the validated values are Python ints in the model"""
+
+    def visit_Constant(self, node):
+        if isinstance(node.value, float) and node.value == int(node.value):
+            return ast.copy_location(ast.Constant(int(node.value)), node)
+        return node
+
+
+def lift_param_validation(setup):
+    """`for kw, kwname in ((self.batch_size, ..), (self.epochs, ..), (self.max_iter, ..)):
+            check_scalar(kw, kwname, (int, float), min_val=-1, include_boundaries='left')
+            if kw <= 0.0 and kw != -1: raise ValueError(..)`
+    -> which values of these three parameters are rejected (as a condition on one Int) and with which exception"""
+    want = {"self.batch_size", "self.epochs", "self.max_iter"}
+    loops = []
+    for st in setup.body:
+        if isinstance(st, ast.For) and isinstance(st.iter, ast.Tuple) and st.iter.elts \
+                and all(isinstance(e, ast.Tuple) and len(e.elts) == 2 for e in st.iter.elts) \
+                and ({_src(e.elts[0]) for e in st.iter.elts} & want):
+            loops.append(st)
+    if len(loops) != 1:
+        _bad(f"__setup: expected exactly one validation loop over batch_size / epochs / max_iter, found {len(loops)}")
+    loop = loops[0]
+    got = [_src(e.elts[0]) for e in loop.iter.elts]
+    if set(got) != want or len(got) != 3:
+        _bad(f"__setup: the validation loop covers {got}")
+    if not (isinstance(loop.target, ast.Tuple) and len(loop.target.elts) == 2 and all(isinstance(e, ast.Name) for e in loop.target.elts)) \
+            or loop.orelse:
+        _bad("__setup: validation loop target of unknown shape")
+    v = loop.target.elts[0].id
+    ex = Expr({v: "v"}, "__setup/validation")
+    conds, kinds, srcs = [], set(), []
+    for st in loop.body:
+        if isinstance(st, ast.Expr) and isinstance(st.value, ast.Call) and _src(st.value.func) == "check_scalar":
+            c = st.value
+            kws = {k.arg: k.value for k in c.keywords}
+            if not (len(c.args) == 3 and _src(c.args[0]) == v and _src(c.args[2]) in ("(int, float)", "int", "(int,)")
+                    and set(kws) <= {"min_val", "include_boundaries"} and "min_val" in kws):
+                _bad(f"__setup: check_scalar call of unknown shape: {_src(c)}")
+            srcs.append(_src(c))
+            m = ex.int(_FloatToInt().visit(kws["min_val"]))
+            inc = ast.literal_eval(kws["include_boundaries"]) if "include_boundaries" in kws else "both"
+            if inc in ("left", "both"):
+                conds.append(f"decide ({m} > v)")          # v < min_val is rejected
+            elif inc in ("right", "neither"):
+                conds.append(f"decide ({m} ≥ v)")
+            else:
+                _bad(f"__setup: include_boundaries={inc!r}")
+            kinds.add("valueError")                        # sklearn.utils.check_scalar: ValueError for a value out of range
+            continue
+        if isinstance(st, ast.If) and not st.orelse and len(st.body) == 1 and isinstance(st.body[0], ast.Raise) \
+                and st.body[0].exc is not None:
+            exc = st.body[0].exc
+            ename = _src(exc.func) if isinstance(exc, ast.Call) else _src(exc)
+            if ename != "ValueError":
+                _bad(f"__setup: a bad batch_size / epochs / max_iter raises `{ename}`")
+            kinds.add("valueError")
+            srcs.append("if " + _src(st.test) + ": raise ValueError")
+            conds.append(ex.bool(_FloatToInt().visit(st.test)))
+            continue
+        if not _harmless(st, {v}):
+            _bad(f"__setup: statement in the validation loop: {_src(st)[:80]}")
+    if not conds or kinds != {"valueError"}:
+        _bad("__setup: no range check of batch_size / epochs / max_iter found")
+    return dict(cond="(" + " || ".join(conds) + ")", src=" ; ".join(srcs))
 
 
 # ------------------------------------------------------------------------------------------- partial_fit
@@ -561,6 +665,8 @@ def lift_partial_fit(fn):
         _bad("partial_fit: does not return self")
     if any(isinstance(n, (ast.For, ast.While)) for n in ast.walk(fn)):
         _bad("partial_fit: contains a loop")
+    if any(isinstance(n, ast.Attribute) and n.attr in ("callbacks_", "callbacks") for n in ast.walk(fn)):
+        _bad("partial_fit: refers to the callbacks (the pinned source calls none)")
     return 1
 
 
@@ -902,6 +1008,7 @@ def adv_schedule(repo):
     p = lift_predict(cls, tree)
     lift_inverse(repo)
     lc = lift_lifecycle(cls)
+    pv = lift_param_validation(_find_fn(cls, "__setup", REL))
     cb = r["cb"]
     o = ["/-", f"GENERATED by harness/lifters/adv_schedule.py from {REL}", f"and {REL_PRE}. Do not edit.",
          "Roles of the locals in `fit`: " + ", ".join(f"{k}=`{v}`" for k, v in sorted(PINNED_ROLES.items())), "-/",
@@ -937,6 +1044,11 @@ def adv_schedule(repo):
           "  nIterInit := nIterInit", "  sliceLo := sliceLo", "  sliceHi := sliceHi", "  incIter := incIter", "  hitMax := hitMax",
           "  exitMax := exitMax", "  stopInit := stopInit", "  stopAcc := stopAcc", "  cbStep := cbStep", "  exitStop := exitStop",
           "  body := body", ""]
+    d("cbGuard", "", "CbGuard", "." + cb["guard"][0], cb["guard"][1] + " around the callback block of fit")
+    d("cbResultCheck", "", "ResultCheck", cb["check"][0], cb["check"][1])
+    d("partialFitCallbackCalls", "", "Nat", "0", "partial_fit does not mention self.callbacks_")
+    d("paramRejected", "(v : Int)", "Bool", pv["cond"], "__setup, for batch_size / epochs / max_iter: " + pv["src"])
+    d("paramRejectedExc", "", "ExcKind", ".valueError", "the exception of the range checks on batch_size / epochs / max_iter")
     d("shuffleAt", "", "ShuffleAt", "." + r["shuffleAt"], "position of `X, y, A = self.backendEngine_.shuffle(X, y, A)`")
     d("shuffleGuarded", "", "Bool", "true" if r["shuffleGuarded"] else "false", "the shuffle stands under `if self.shuffle:`")
     d("partialFitTrainSteps", "", "Nat", str(npf),
